@@ -315,6 +315,86 @@ example : ∃ s1 s2, Gp.step ⟨1, false, true⟩ Gp.init (.reg 0) = some s1 ∧
   refine ⟨_, _, rfl, rfl, ?_⟩
   exact flip_proj_step ⟨1, false, true⟩ _ _ 0 (.rLd false) rfl rfl
 
+/-! ## calls from a signal handler that interrupted `rcu_read_lock` at L2 pc `fence` (C19): nested path only, all fences
+silent (`absEvHdl`) -/
+
+theorem _urcu_memb_read_lock_in_handler_refines (sf : Bool) (fuel : Nat) (env : Env) (inp : List Val) (ls : LState)
+    (hrel : Rel memb env ls) (hpc : ls.rpc = .fence) (hn : 1 ≤ ls.lnest ∧ ls.lnest + 1 < 4294967296) :
+    ∃ out, exec fuel Gen.Src.«_urcu_memb_read_lock» env inp = .ok out ∧
+      absRunHdl sf memb ls out.events = some ([.rInc (ls.lnest + 1, ls.lph)], { ls with lnest := ls.lnest + 1 }) ∧
+      lrun sf ls [.rInc (ls.lnest + 1, ls.lph)] = some { ls with lnest := ls.lnest + 1 } ∧
+      Rel memb out.env { ls with lnest := ls.lnest + 1 } ∧
+      (∀ l, l ≠ memb.rdCtr → out.env.priv l = env.priv l) ∧ out.ctl = .normal := by
+  obtain ⟨out, h, h1, h2⟩ := memb_read_lock_in_handler sf fuel env inp ls hrel hpc hn
+  exact ⟨out, h, h1, absRunHdl_lrun _ _ _ _ _ _ h1, h2⟩
+
+theorem _urcu_memb_read_unlock_in_handler_refines (sf : Bool) (fuel : Nat) (env : Env) (inp : List Val) (ls : LState)
+    (hrel : Rel memb env ls) (hpc : ls.rpc = .fence) (hn : 2 ≤ ls.lnest) :
+    ∃ out, exec fuel Gen.Src.«_urcu_memb_read_unlock» env inp = .ok out ∧
+      absRunHdl sf memb ls out.events = some ([.rDec (ls.lnest - 1, ls.lph)], { ls with lnest := ls.lnest - 1 }) ∧
+      lrun sf ls [.rDec (ls.lnest - 1, ls.lph)] = some { ls with lnest := ls.lnest - 1 } ∧
+      Rel memb out.env { ls with lnest := ls.lnest - 1 } ∧
+      (∀ l, l ≠ memb.rdCtr → out.env.priv l = env.priv l) ∧ out.ctl = .normal := by
+  obtain ⟨out, h, h1, h2⟩ := memb_read_unlock_in_handler sf fuel env inp ls hrel hpc hn
+  exact ⟨out, h, h1, absRunHdl_lrun _ _ _ _ _ _ h1, h2⟩
+
+theorem _urcu_mb_read_lock_in_handler_refines (sf : Bool) (fuel : Nat) (env : Env) (inp : List Val) (ls : LState)
+    (hrel : Rel mb env ls) (hpc : ls.rpc = .fence) (hn : 1 ≤ ls.lnest ∧ ls.lnest + 1 < 4294967296) :
+    ∃ out, exec fuel Gen.Src.«_urcu_mb_read_lock» env inp = .ok out ∧
+      absRunHdl sf mb ls out.events = some ([.rInc (ls.lnest + 1, ls.lph)], { ls with lnest := ls.lnest + 1 }) ∧
+      lrun sf ls [.rInc (ls.lnest + 1, ls.lph)] = some { ls with lnest := ls.lnest + 1 } ∧
+      Rel mb out.env { ls with lnest := ls.lnest + 1 } ∧
+      (∀ l, l ≠ mb.rdCtr → out.env.priv l = env.priv l) ∧ out.ctl = .normal := by
+  obtain ⟨out, h, h1, h2⟩ := mb_read_lock_in_handler sf fuel env inp ls hrel hpc hn
+  exact ⟨out, h, h1, absRunHdl_lrun _ _ _ _ _ _ h1, h2⟩
+
+theorem _urcu_mb_read_unlock_in_handler_refines (sf : Bool) (fuel : Nat) (env : Env) (inp : List Val) (ls : LState)
+    (hrel : Rel mb env ls) (hpc : ls.rpc = .fence) (hn : 2 ≤ ls.lnest) :
+    ∃ out, exec fuel Gen.Src.«_urcu_mb_read_unlock» env inp = .ok out ∧
+      absRunHdl sf mb ls out.events = some ([.rDec (ls.lnest - 1, ls.lph)], { ls with lnest := ls.lnest - 1 }) ∧
+      lrun sf ls [.rDec (ls.lnest - 1, ls.lph)] = some { ls with lnest := ls.lnest - 1 } ∧
+      Rel mb out.env { ls with lnest := ls.lnest - 1 } ∧
+      (∀ l, l ≠ mb.rdCtr → out.env.priv l = env.priv l) ∧ out.ctl = .normal := by
+  obtain ⟨out, h, h1, h2⟩ := mb_read_unlock_in_handler sf fuel env inp ls hrel hpc hn
+  exact ⟨out, h, h1, absRunHdl_lrun _ _ _ _ _ _ h1, h2⟩
+
+theorem _urcu_bp_read_lock_in_handler_refines (sf : Bool) (fuel : Nat) (env : Env) (inp : List Val) (ls : LState)
+    (k : Nat) (hp : env.priv (.tls "urcu_bp_reader") = some (.ptr (.obj k)))
+    (hrel : Rel (bp k) env ls) (hpc : ls.rpc = .fence) (hn : 1 ≤ ls.lnest ∧ ls.lnest + 1 < 4294967296) :
+    ∃ out, exec fuel Gen.Src.«_urcu_bp_read_lock» env inp = .ok out ∧
+      absRunHdl sf (bp k) ls out.events = some ([.rInc (ls.lnest + 1, ls.lph)], { ls with lnest := ls.lnest + 1 }) ∧
+      lrun sf ls [.rInc (ls.lnest + 1, ls.lph)] = some { ls with lnest := ls.lnest + 1 } ∧
+      Rel (bp k) out.env { ls with lnest := ls.lnest + 1 } ∧
+      (∀ l, l ≠ (bp k).rdCtr → out.env.priv l = env.priv l) ∧ out.ctl = .normal := by
+  obtain ⟨out, h, h1, h2⟩ := bp_read_lock_in_handler sf fuel env inp ls k hp hrel hpc hn
+  exact ⟨out, h, h1, absRunHdl_lrun _ _ _ _ _ _ h1, h2⟩
+
+theorem _urcu_bp_read_unlock_in_handler_refines (sf : Bool) (fuel : Nat) (env : Env) (inp : List Val) (ls : LState)
+    (k : Nat) (b : Int) (hp : env.priv (.tls "urcu_bp_reader") = some (.ptr (.obj k)))
+    (hb : env.priv (.glob "urcu_bp_has_sys_membarrier") = some (.int b))
+    (hrel : Rel (bp k) env ls) (hpc : ls.rpc = .fence) (hn : 2 ≤ ls.lnest) :
+    ∃ out, exec fuel Gen.Src.«_urcu_bp_read_unlock» env inp = .ok out ∧
+      absRunHdl sf (bp k) ls out.events = some ([.rDec (ls.lnest - 1, ls.lph)], { ls with lnest := ls.lnest - 1 }) ∧
+      lrun sf ls [.rDec (ls.lnest - 1, ls.lph)] = some { ls with lnest := ls.lnest - 1 } ∧
+      Rel (bp k) out.env { ls with lnest := ls.lnest - 1 } ∧
+      (∀ l, l ≠ (bp k).rdCtr → out.env.priv l = env.priv l) ∧ out.ctl = .normal := by
+  obtain ⟨out, h, h1, h2⟩ := bp_read_unlock_in_handler sf fuel env inp ls k b hp hb hrel hpc hn
+  exact ⟨out, h, h1, absRunHdl_lrun _ _ _ _ _ _ h1, h2⟩
+
+/-- non-vacuity: handler interrupts the outermost `rcu_read_lock` of memb after its store (nesting 1, phase 1) and does
+lock; unlock -/
+example : (exec 0 Gen.Src.«_urcu_memb_read_lock» (envMemb 0 4294967297) []).toOption.map (·.events) =
+    some [.fence .barrier, .st memb.rdCtr (.int 4294967298) 0] := by decide
+example : absRunHdl true memb { rpc := .fence, reg := true, held := [], lnest := 1, lph := true }
+      [.fence .barrier, .st memb.rdCtr (.int 4294967298) 0] =
+    some ([.rInc (2, true)], { rpc := .fence, reg := true, held := [], lnest := 2, lph := true }) := by decide
+example : absRunHdl true memb { rpc := .fence, reg := true, held := [], lnest := 2, lph := true }
+      [.st memb.rdCtr (.int 4294967297) 0, .fence .barrier] =
+    some ([.rDec (1, true)], { rpc := .fence, reg := true, held := [], lnest := 1, lph := true }) := by decide
+example :=
+  _urcu_memb_read_lock_in_handler_refines true 0 (envMemb 0 4294967297) []
+    { rpc := .fence, reg := true, held := [], lnest := 1, lph := true } ⟨rfl, by decide⟩ rfl (by decide)
+
 /-! ## QSBR -/
 
 theorem _urcu_qsbr_quiescent_state_refines (fuel : Nat) (env : Env) (inp : List Val) (ls : QState)
